@@ -70,6 +70,8 @@ def place_demo(cand, wt):
             placed.append(f)
     m = re.search(r"(go test [^\n(`]*)", txt) or re.search(r"((?:sh|bash)\s+\S+\.sh[^\n(`]*)", txt)
     cmd = m.group(1).strip() if m else None
+    if "zz_demo.sh" in files and not re.search(r"go test ", txt):
+        cmd = "sh zz_demo.sh"
     return cmd, placed
 
 
